@@ -16,6 +16,9 @@ AST (tuples)
         ('print',e) ('expr',e) ('if',c,[then],[else]) ('while',kind,c,[body]) ('loop',[body])
         ('fornum',i,a,b,[body]) ('forin',k,a,b,[body]) ('forlist',k,[exprs],[body]) ('breakif',c[,label])
         ('contif',c[,label]) ('label',name,loopstmt) ('retif',c,e) ('drain',fs,n)
+        ('doblock',[stmts])                      plain `do ... end` block scope
+        ('trycall',x,fname,[args],[catch stmts]) do; x = fname(args); catch :boom; ...; end  -- fname is one of the
+                                                 THROWERS (error thrown 1..n call frames below the catching frame)
   program: {'defs': [('def',name,[(p,type)],rettype,[stmts],result_expr)], 'main': [stmts]}
   types: 'Int', 'F0' (||: Int), 'F1' (|a: Int|: Int), 'L' (List[||: Int])
 """
@@ -128,6 +131,16 @@ def pblock(stmts, ind):
             out.append('%scontinue%s if %s' % (p, '[%s]' % s[2] if len(s) > 2 and s[2] else '', pe(s[1])))
         elif k == 'retif':
             out.append('%sreturn %s if %s' % (p, pe(s[2]), pe(s[1])))
+        elif k == 'doblock':
+            out.append(p + 'do')
+            out += pblock(s[1], ind + 1)
+            out.append(p + 'end')
+        elif k == 'trycall':
+            out.append(p + 'do')
+            out.append('%s  %s = %s(%s)' % (p, s[1], s[2], ', '.join(pe(a) for a in s[3])))
+            out.append(p + 'catch :boom')
+            out += pblock(s[4], ind + 1)
+            out.append(p + 'end')
         elif k == 'drain':
             n = s[2]
             out.append('%s%s := 0' % (p, n))
@@ -171,6 +184,14 @@ class Ret(Exception):
 
 class Fuel(Exception):
     pass
+
+
+class Boom(Exception):
+    """the Elk error :boom travelling up the call frames"""
+    pass
+
+
+THROW_LIMIT = 5   # thr1(n) throws :boom when n > THROW_LIMIT
 
 
 class Interp:
@@ -227,6 +248,15 @@ class Interp:
         if k == 'len':
             return len(self.look(env, e[1])[0])
         raise ValueError(k)
+
+    def thrower(self, name, args):
+        """thr1(n) = n, throws :boom when n > THROW_LIMIT; thr2 = thr1 + 1; thr3 = thr2 + 1 (the error crosses 1, 2, 3
+        frames); thrd(n, d) = thr1(n) + d through d + 1 frames (the innermost call is a tail call)"""
+        self.tick()
+        n = args[0]
+        if n > THROW_LIMIT:
+            raise Boom()
+        return n + {'thr1': 0, 'thr2': 1, 'thr3': 2}[name] if name != 'thrd' else n + max(args[1], 0)
 
     def body(self, env, stmts, res):
         self.depth += 1
@@ -363,6 +393,14 @@ class Interp:
         elif k == 'retif':
             if self.ev(s[1], env):
                 raise Ret(self.ev(s[2], env))
+        elif k == 'doblock':
+            self.block(s[1], env + [{}])
+        elif k == 'trycall':
+            try:
+                v = self.thrower(s[2], [self.ev(a, env) for a in s[3]])
+                self.look(env, s[1])[0] = v
+            except Boom:
+                self.block(s[4], env + [{}])
         elif k == 'drain':
             lst = self.look(env, s[1])[0]
             i = 0
@@ -418,8 +456,11 @@ class Gen:
         self.profile = profile
         self.n = 0
         self.features = set()
-        self.v2 = profile.endswith('b')      # second-generation shapes (profiles 'c13b', 'c10b'); the
-        self.base = profile.rstrip('b')      # old profiles keep generating the same programs per seed
+        self.v3 = profile.endswith('c')      # third generation ('c13c', 'c10c'): v2 + errors unwinding call frames
+        #                                      under live captured variables + labelled exits from inner loops after
+        #                                      captures in intermediate block scopes
+        self.v2 = profile.endswith('b') or self.v3   # second-generation shapes (profiles 'c13b', 'c10b'); the
+        self.base = profile.rstrip('bc')     # old profiles keep generating the same programs per seed
         self.deep_budget = 3 if self.base == 'c10' else 2
         self.loop_labels = []                # labels of the enclosing labelled loops (v2)
 
@@ -625,6 +666,12 @@ class Gen:
 
     def stmt(self, sc, depth, in_loop, in_lam):
         r = self.r
+        if self.v3 and depth < 3:
+            c3 = r.below(100)
+            if c3 < 14:
+                return self.catch_probe(sc, depth)
+            if c3 < 22 and depth < 2 and sc.all('L'):
+                return self.labelled_nest(sc, depth)
         c = r.below(100)
         ints = sc.all('Int')
         if c < 14 or not ints:
@@ -670,6 +717,174 @@ class Gen:
             d = r.choice([40, 120, 250] if self.base == 'c10' else [10, 60, 130])
             return [('print', ('mcall', 'deep', [('num', d), ('var', r.choice(sc.all('F0')))]))]
         return [('print', self.expr(sc))]
+
+    # ---- third generation (1): an error thrown 1..n call frames below unwinds into a frame whose captured locals
+    # are still in scope; afterwards the frame and the closures write and read them alternately
+    def trycall(self, sc, tgt, force):
+        r = self.r
+        fname = r.choice(['thr1', 'thr2', 'thr3', 'thrd'])
+        if force:
+            arg = ('num', r.range(THROW_LIMIT + 1, 9))
+        else:
+            arg = self.expr(sc, 1, False)
+        args = [arg] + ([('num', r.range(0, 6))] if fname == 'thrd' else [])
+        ints = sc.all('Int')
+        handler = [('set', tgt, ('num', 0 - r.range(1, 9)))]
+        if ints and r.chance(1, 2):
+            handler.append(('aug', r.choice(ints), '+', ('num', r.range(1, 9))))     # the handler writes a captured local
+        if sc.all('F0') and r.chance(1, 3):
+            handler.append(('print', ('call', ('var', r.choice(sc.all('F0'))), [])))  # ... or calls a closure
+        self.features.add('throw_catch')
+        self.features.add('throw_depth_' + fname)
+        return ('trycall', tgt, fname, args, handler)
+
+    def catch_probe(self, sc, depth):
+        r = self.r
+        out = []
+        x = self.fresh('x')
+        out.append(('decl', x, self.expr(sc, 1, False)))
+        sc.add('Int', x)
+        f = self.fresh('f')
+        # a closure writing the local, one reading it (both share the variable with the frame)
+        out.append(('declf', f, 'F0', ('lam', [], [('aug', x, '+', ('num', r.range(1, 9)))], ('var', x))))
+        sc.add('F0', f)
+        if r.chance(1, 2) and sc.all('L'):
+            out.append(('push', r.choice(sc.all('L')), ('lam', [], [], ('bin', '*', ('var', x), ('num', 2)))))
+        if r.chance(1, 3) and depth < 2:
+            out.append(('declf', self.fresh('f'), 'F0', self.lam(sc, 0, depth)))
+            sc.add('F0', out[-1][1])
+        t = self.fresh('t')
+        out.append(('decl', t, ('num', 0)))
+        sc.add('Int', t)
+        if r.chance(1, 3):
+            out.append(('expr', ('call', ('var', f), [])))
+        out.append(self.trycall(sc, t, r.chance(3, 4)))
+        self.features.add('write_captured')
+        # after the catch: frame writes / closure reads, closure writes / frame reads
+        order = r.below(3)
+        if order != 1:
+            out.append(('aug', x, '+', ('num', r.range(10, 90))))
+            out.append(('print', ('call', ('var', f), [])))
+        if order != 0:
+            out.append(('expr', ('call', ('var', f), [])))
+            out.append(('print', ('var', x)))
+        out.append(('print', ('var', t)))
+        if r.chance(1, 3):
+            out.append(self.trycall(sc, t, r.chance(1, 2)))
+            out.append(('print', ('bin', '+', ('var', x), ('call', ('var', f), []))))
+        return out
+
+    # ---- third generation (2): `continue[l]` / `break[l]` issued from an INNER loop after closures captured locals
+    # of block scopes (if / else / do bodies) lying between the labelled loop and the inner loop, locals of the
+    # labelled loop's body and of the inner loop's body.  No closure follows the labelled exit (in source order)
+    # inside the labelled loop: that is exactly the class of the known finding witness:labelled-exit-before-capture.
+    def simple_tail(self, sc, n):
+        """n statements that create no closure: new Int locals (they reuse freed slots), updates, prints"""
+        r = self.r
+        out = []
+        for _ in range(n):
+            c = r.below(3)
+            ints = sc.all('Int')
+            if c == 0 or not ints:
+                q = self.fresh('q')
+                out.append(('decl', q, self.expr(sc, 1, False)))
+                sc.add('Int', q)
+            elif c == 1:
+                out.append(('aug', r.choice(ints), '+', ('num', r.range(100, 900))))
+            else:
+                out.append(('print', self.expr(sc, 1, False)))
+        return out
+
+    def loop_of(self, kind, v, lo, cnt, body, label):
+        """the loop statement(s) of `kind` running v over lo .. lo+cnt-1 with the given body"""
+        if kind == 'forlist':
+            st = [('forlist', v, [('num', lo + k) for k in range(cnt)], body)]
+        elif kind in ('fornum', 'forin'):
+            st = [(kind, v, ('num', lo), ('num', lo + cnt - 1), body)]
+        else:
+            # counter-driven loops: v is declared before the loop and incremented first thing in the body
+            body = [('aug', v, '+', ('num', 1))] + body
+            hi = lo + cnt - 1
+            if kind == 'loop':
+                body = [('breakif', ('cmp', '>=', ('var', v), ('num', hi)))] + body
+                st = [('loop', body)]
+            elif kind == 'while':
+                st = [('while', 'while', ('cmp', '<', ('var', v), ('num', hi)), body)]
+            else:
+                st = [('while', 'until', ('cmp', '>=', ('var', v), ('num', hi)), body)]
+            if label:
+                st = [('label', label, st[0])]
+            return [('decl', v, ('num', lo - 1))] + st
+        if label:
+            st = [('label', label, st[0])]
+        return st
+
+    def labelled_nest(self, sc, depth):
+        r = self.r
+        kinds = ['while', 'until', 'loop', 'fornum', 'forin', 'forlist', 'forlist']
+        lb = self.fresh('lb')
+        tgt = r.choice(sc.all('L'))
+        okind, ikind = r.choice(kinds), r.choice(kinds)
+        v, k = self.fresh('i'), self.fresh('i')
+        lo, cnt = r.range(0, 3), r.range(2, 4)
+        klo, kcnt = r.range(0, 3), r.range(2, 4)
+        self.features.update(['label', 'loop_' + okind, 'loop_' + ikind, 'capture_in_loop', 'exit_from_inner_loop'])
+        osc = Scope(sc)
+        osc.add('RO', v)
+        body = []
+        j = self.fresh('j')
+        body.append(('decl', j, ('bin', '+', ('var', v), ('num', r.range(0, 5)))))
+        osc.add('Int', j)
+        if r.chance(1, 2):
+            body.append(('push', tgt, ('lam', [], [], ('bin', '+', ('var', j), ('var', v)))))
+        # the intermediate block scope
+        bsc = Scope(osc)
+        blk = []
+        m = self.fresh('m')
+        blk.append(('decl', m, ('bin', '+', ('bin', '*', ('var', v), ('num', 10)), ('num', r.range(0, 9)))))
+        bsc.add('Int', m)
+        if r.chance(2, 3):
+            blk.append(('push', tgt, ('lam', [], [], ('var', m) if r.chance(1, 2) else ('bin', '+', ('var', m), ('var', j)))))
+        else:
+            blk.append(('push', tgt, self.lam(bsc, 0, depth + 1)))
+        if r.chance(1, 3):
+            m2 = self.fresh('m')
+            blk.append(('decl', m2, ('bin', '-', ('var', m), ('num', r.range(1, 9)))))
+            bsc.add('Int', m2)
+            blk.append(('push', tgt, ('lam', [], [('aug', m2, '+', ('num', 1))], ('var', m2))))
+        # the inner loop
+        isc = Scope(bsc)
+        isc.add('RO', k)
+        ib = []
+        if r.chance(1, 2):
+            n = self.fresh('j')
+            ib.append(('decl', n, ('bin', '+', ('var', k), ('num', r.range(0, 5)))))
+            isc.add('Int', n)
+            if r.chance(2, 3):
+                ib.append(('push', tgt, ('lam', [], [], ('bin', '+', ('var', n), ('var', m)))))
+        what = 'contif' if r.chance(2, 3) else 'breakif'
+        self.features.add('labelled_' + ('continue' if what == 'contif' else 'break'))
+        self.features.add('continue' if what == 'contif' else 'break')
+        cond = ('cmp', '==', ('var', k), ('num', r.range(klo, klo + kcnt - 1)))
+        ib.append((what, cond, lb))
+        ib += self.simple_tail(isc, r.range(0, 2))
+        blk += self.loop_of(ikind, k, klo, kcnt, ib, None)
+        blk += self.simple_tail(bsc, r.range(0, 2))       # runs only when the labelled exit was not taken
+        # which iterations of the labelled loop enter the block
+        shape = r.choice(['if', 'ifelse', 'else', 'do'])
+        self.features.add('nest_block_' + shape)
+        cnd = ('cmp', r.choice(['<=', '<']), ('var', v), ('num', lo + cnt - 1))
+        other = self.simple_tail(Scope(osc), r.range(1, 3))   # the sibling branch declares locals in the same slots
+        if shape == 'if':
+            body.append(('if', cnd, blk, []))
+        elif shape == 'ifelse':
+            body.append(('if', cnd, blk, other))
+        elif shape == 'else':
+            body.append(('if', ('cmp', '>', ('var', v), ('num', lo + cnt - 1 - r.range(0, 1))), other, blk))
+        else:
+            body.append(('doblock', blk))
+        body += self.simple_tail(osc, r.range(1, 3))
+        return self.loop_of(okind, v, lo, cnt, body, lb)
 
     # ---- fixed helper definitions
     def helpers(self):
@@ -849,11 +1064,27 @@ DEEP_ELK = """def deep(n: Int, f: ||: Int): Int
 end
 """
 
+THROW_ELK = """def thr1(n: Int): Int ! :boom
+  throw :boom if n > %d
+  n
+end
+def thr2(n: Int): Int ! :boom
+  thr1(n) + 1
+end
+def thr3(n: Int): Int ! :boom
+  thr2(n) + 1
+end
+def thrd(n: Int, d: Int): Int ! :boom
+  return thr1(n) if d <= 0
+  thrd(n, d - 1) + 1
+end
+""" % THROW_LIMIT
+
 _to_elk = to_elk
 
 
 def to_elk(prog):  # noqa: F811
-    return DEEP_ELK + _to_elk(prog)
+    return DEEP_ELK + (THROW_ELK if 'throw_catch' in prog.get('features', ()) else '') + _to_elk(prog)
 
 
 _st = Interp.st
